@@ -255,14 +255,25 @@ let do_hist id kind trusted reg_text ops_text obs =
         (match parse_link lb with
          | Some l -> OLoad (form_of f, l)
          | None -> bad := true; OLoad (form_of f, { l_v0 = false; l_codec = N0; l_mhtype = N0; l_digest = [] }))) pops in
-  let (outs, st) = run hasher_ok hash encoders decoders !store_latch sk trusted [] ops in
-  let out_texts = Array.of_list (List.map (function OutS s -> sout_text s | OutL o -> lout_text o) outs) in
-  let setup_failed i = (match List.nth_opt outs i with
+  let (outs0, _) = run hasher_ok hash encoders decoders !store_latch sk trusted [] ops in
+  let setup_failed i = (match List.nth_opt outs0 i with
       | Some (OutS s) -> s.so_status = SErr ESetup
       | Some (OutL o) -> o.lo_status = SErr ESetup
       | None -> true) in
-  (* the opener of the outer op is never reached when the outer op fails in its set-up *)
-  Hashtbl.iter (fun i () -> if setup_failed (i + 1) then out_texts.(i) <- "notrun") nested_marks;
+  (* the opener of the outer op is never reached when the outer op fails in its set-up: the nested
+     operation does not happen (and the harness printed no table entries for it) *)
+  let notrun = Hashtbl.fold (fun i () acc -> if setup_failed (i + 1) then i :: acc else acc) nested_marks [] in
+  missing := false;
+  let ops_run = List.filteri (fun i _ -> not (List.mem i notrun)) ops in
+  let (outs, st) = run hasher_ok hash encoders decoders !store_latch sk trusted [] ops_run in
+  let rec splice i outs =
+    if i >= List.length ops then [] else
+    if List.mem i notrun then "notrun" :: splice (i + 1) outs
+    else (match outs with
+        | OutS s :: r -> sout_text s :: splice (i + 1) r
+        | OutL o :: r -> lout_text o :: splice (i + 1) r
+        | [] -> []) in
+  let out_texts = Array.of_list (splice 0 outs) in
   let model_obs = String.concat ";" (Array.to_list out_texts @ [storage_text st]) in
   let model_obs = if !missing then model_obs ^ ";!table-entry-missing" else model_obs in
   (* ---- oracle, on the implementation's observation *)
